@@ -80,7 +80,8 @@ func (f *c20flatCtx) abstract(expr string) (c20abs, bool) {
 	if a, ok := f.cache[expr]; ok {
 		return a, true
 	}
-	v := f.ctx.CompileString(expr)
+	// (as a field value: Value.Default on a bare top-level expression reports no default)
+	v := f.ctx.CompileString("x: " + expr).LookupPath(cue.ParsePath("x"))
 	if v.Err() != nil {
 		return c20abs{}, false
 	}
@@ -176,6 +177,39 @@ func c20flatCollect(p c20Pkg) (paths map[string][]c20flatConj, ok bool) {
 	return paths, true
 }
 
+// maskOfForeign abstracts a value that lives in another cue.Context: it is re-rendered
+// through its syntax first (values of different runtimes must not be unified).
+func (f *c20flatCtx) maskOfForeign(v cue.Value) (m uint32, ok bool) {
+	defer func() {
+		if r := recover(); r != nil {
+			ok = false
+		}
+	}()
+	n := v.Syntax(cue.Raw())
+	e, isExpr := n.(ast.Expr)
+	if !isExpr {
+		return 0, false
+	}
+	f.mu.Lock()
+	defer f.mu.Unlock()
+	w := f.ctx.BuildExpr(e)
+	if w.Err() != nil {
+		return 0, false
+	}
+	return f.maskOfValue(w), true
+}
+
+// marked counts the conjuncts that carry a default mark.
+func (f *c20flatCtx) marked(cs []c20flatConj) int {
+	n := 0
+	for _, c := range cs {
+		if a, ok := f.abstract(c.expr); ok && a.d != a.v {
+			n++
+		}
+	}
+	return n
+}
+
 func (f *c20flatCtx) encode(cs []c20flatConj) (string, bool) {
 	if len(cs) == 0 {
 		return "-", true
@@ -196,24 +230,42 @@ func (f *c20flatCtx) encode(cs []c20flatConj) (string, bool) {
 	return strings.Join(parts, ","), true
 }
 
+var c20flatOnce sync.Once
+var c20flatShared *c20flatCtx
+
+func c20flatCtxShared() *c20flatCtx {
+	c20flatOnce.Do(func() { c20flatShared = newC20flatCtx() })
+	return c20flatShared
+}
+
+// c20GenFlat: every field gets a target atom and (mostly) declarations that admit it, so
+// that most packages evaluate without error and the declarations overlap.
 func c20GenFlat(r *Rng) c20Pkg {
+	fc := c20flatCtxShared()
 	nfiles := 1 + r.Intn(3)
 	bodies := make([][]string, nfiles)
 	add := func(s string) { i := r.Intn(nfiles); bodies[i] = append(bodies[i], s) }
 	nf := 1 + r.Intn(4)
-	expr := func() string { return Pick(r, c20flatVocab) }
-	// a field gets 1–4 declarations drawn so that they often repeat / imply each other
 	fieldDecls := func(path string) {
-		base := expr()
+		t := uint(r.Intn(21)) // a scalar atom
+		var cands []string
+		for _, e := range c20flatVocab {
+			if a, ok := fc.abstract(e); ok && a.v&(1<<t) != 0 {
+				cands = append(cands, e)
+			}
+		}
+		if len(cands) == 0 || r.Chance(1, 15) {
+			cands = c20flatVocab
+		}
 		n := 1 + r.Intn(4)
+		base := Pick(r, cands)
 		for i := 0; i < n; i++ {
 			e := base
-			switch r.Intn(5) {
-			case 0, 1:
-				e = expr()
-			case 2:
-				// something the base admits
-				e = Pick(r, []string{"1", "2", "int", "number", "_", `"a"`, "string"})
+			if r.Chance(3, 5) {
+				e = Pick(r, cands)
+			}
+			if r.Chance(1, 6) && t < 21 {
+				e = c20atoms[t] // the concrete value itself
 			}
 			add(fmt.Sprintf("%s: %s", path, e))
 		}
@@ -221,22 +273,22 @@ func c20GenFlat(r *Rng) c20Pkg {
 	for i := 0; i < nf; i++ {
 		name := fmt.Sprintf("x%d", i)
 		if r.Chance(1, 3) {
-			// nested struct with its own fields (and maybe a pattern)
 			for j := 0; j < 1+r.Intn(3); j++ {
 				fieldDecls(fmt.Sprintf("%s: f%d", name, j))
 			}
-			if r.Chance(1, 2) {
-				add(fmt.Sprintf("%s: [string]: %s", name, expr()))
+			if r.Chance(1, 3) {
+				add(fmt.Sprintf("%s: [string]: %s", name, Pick(r, []string{"_", "number | string | bool | null", "_", "int | string | bool | null | float"})))
 			}
 			if r.Chance(1, 3) {
 				add(fmt.Sprintf("%s: {}", name))
 			}
 		} else {
 			fieldDecls(name)
+			if r.Chance(1, 6) {
+				// a pattern that happens to be as specific as one of the declarations
+				add(fmt.Sprintf("[string]: %s", Pick(r, []string{"_", "_", "number | string | bool | null | {...}"})))
+			}
 		}
-	}
-	if r.Chance(1, 4) {
-		add(fmt.Sprintf("[string]: %s", Pick(r, []string{"_", "number | string | bool | null | {...}", "_"})))
 	}
 	var p c20Pkg
 	for i, b := range bodies {
@@ -247,7 +299,7 @@ func c20GenFlat(r *Rng) c20Pkg {
 }
 
 func c20FlatFamily(c *Cfg, r *Rng) {
-	fc := newC20flatCtx()
+	fc := c20flatCtxShared()
 	// fidelity of the abstraction on the vocabulary itself: one conjunct, one vertex
 	for _, e := range c20flatVocab {
 		if enc, ok := fc.encode([]c20flatConj{{expr: e}}); ok {
@@ -256,7 +308,7 @@ func c20FlatFamily(c *Cfg, r *Rng) {
 			c.Op("I", "final "+enc, fmt.Sprint(fc.maskOfValue(d)))
 		}
 	}
-	n := c.Pick(1500, 25000)
+	n := c.Pick(1500, 6000)
 	var cases []*c20Case
 	for i := 0; i < n; i++ {
 		cases = append(cases, &c20Case{origin: fmt.Sprintf("flat:%d", i), pkg: c20GenFlat(r.Sub()), feats: map[string]bool{"flat-family": true}})
@@ -288,11 +340,23 @@ func c20FlatFamily(c *Cfg, r *Rng) {
 			if !ok {
 				continue
 			}
+			if fc.marked(before[p]) > 1 {
+				// several marked disjunctions at one vertex: the evaluator's default
+				// handling is order dependent there (C04, known deviation from the
+				// spec's pair algebra) — left to the direct predicates
+				c.Count("flat/paths-skipped-multi-default")
+				continue
+			}
 			rv := l.val.LookupPath(cue.ParsePath(strings.TrimPrefix(p, ".")))
 			impl := "absent"
 			if rv.Exists() {
 				d, _ := rv.Default()
-				impl = fmt.Sprint(fc.maskOfValue(d))
+				m, ok := fc.maskOfForeign(d)
+				if !ok {
+					c.Count("flat/paths-skipped-unrenderable")
+					continue
+				}
+				impl = fmt.Sprint(m)
 			}
 			c.Op("I", "final "+encB, impl)
 			encA, ok := fc.encode(after[p])
